@@ -416,7 +416,8 @@ class EvolvableAlgorithm(ABC, metaclass=RegistryMeta):
                             )
 
                 elif isinstance(attr, np.ndarray) or isinstance(clone_attr, np.ndarray):
-                    if not np.array_equal(attr, clone_attr):
+                    # Equal arrays are copied as well when they are one shared object
+                    if attr is clone_attr or not np.array_equal(attr, clone_attr):
                         setattr(
                             clone, attribute, copy.deepcopy(getattr(agent, attribute))
                         )
